@@ -151,12 +151,23 @@ def handle : Handler := fun op inp impl => do
     let claimed := live s
     let tags := ["converge", if claimed then "converge:claimed" else "converge:unclaimed",
                  s!"replicas:{bucket s.replicas}"]
+    -- (v) also from a state in which a scale event is still pending: the first sync absorbs it (proportional scaling,
+    -- annotations refreshed), then the rolling path takes over.  Judged on the implementation; the theorem `c17_v_rounds`
+    -- starts after the scale event (`live`).
+    -- (not judged: a single active ReplicaSet whose size already equals `replicas` while its desired-replicas annotation
+    --  differs — `scale()` returns early there without refreshing the annotation; no sync of this controller leaves a
+    --  ReplicaSet in that shape, it takes a foreign writer scaling the ReplicaSet directly)
+    let act := (s.olds ++ s.new.toList).filter (fun r => decide (r.spec > 0))
+    let stuckShape := decide (act.length ≤ 1) && (match act.head? with | some r => r.spec == s.replicas | none => s.replicas == 0)
+    let liveScaling := inv s && !s.deleting && !s.paused && covers s && cfgLive s && isScalingEvent s && !stuckShape
+    let vScaling := [("C17.v_after_scale_event", !liveScaling || (nf == s.replicas && of' == 0))]
+    let tags := tags ++ (if liveScaling then ["converge:scale-pending"] else [])
     match converge fuel s 0 with
-    | none => return { model := .null, holds := [("C17.v", clauseV s nf of')], tags := tags ++ ["undef"] }
+    | none => return { model := .null, holds := [("C17.v", clauseV s nf of')] ++ vScaling, tags := tags ++ ["undef"] }
     | some (rounds, t) =>
       return { model := mkObj [("rounds", natJ rounds), ("new", intJ (match t.new with | none => -1 | some r => r.spec)),
                                ("old", intJ (oldTotal t))],
-               holds := [("C17.v", clauseV s nf of')], tags := tags ++ [s!"rounds:{bucket rounds}"] }
+               holds := [("C17.v", clauseV s nf of')] ++ vScaling, tags := tags ++ [s!"rounds:{bucket rounds}"] }
   | _ => .error s!"depsync: unknown op {op}"
 
 end RV.Drv.DepSync
